@@ -1,8 +1,193 @@
 package main
 
-// Lockset / happens-before monitor hooks (exploring mode).
+// Happens-before monitor for Go maps (flag -race).
+//
+// The Go runtime turns a map read or write that overlaps a write by another
+// goroutine into "fatal error: concurrent map read and map write" /
+// "concurrent map writes". Whether two accesses can overlap does not depend on
+// the one interleaving the executor happens to run: it is decided by the
+// happens-before order of the execution (vector clocks, FastTrack style):
+//   - go statement: parent -> child
+//   - Mutex / RWMutex / WaitGroup: release -> later acquire of the same object
+//     (RLock acquires from writers only; Lock acquires from writers and readers)
+//   - every other synchronisation the executor models (channel operations,
+//     select, atomics, sync.Map, Once, Cond, vrt.Quiesce) is treated as an
+//     acquire+release on ONE global object, which orders more than the Go memory
+//     model does: the monitor can miss races that only such operations separate,
+//     it cannot report an access pair that real synchronisation orders.
+// Only maps are monitored (plain variables are not: a racy word is not a crash).
 
-func (m *machine) sharedAccess(fr *frame, obj interface{}, write bool) {}
-func (m *machine) lockAcquire(fr *frame, l interface{})                {}
-func (m *machine) lockRelease(fr *frame, l interface{})                {}
-func (m *machine) hbJoinAll(fr *frame)                                 {}
+import "fmt"
+
+type vclock []int
+
+func (a vclock) get(i int) int {
+	if i < len(a) {
+		return a[i]
+	}
+	return 0
+}
+
+func joinVC(a, b vclock) vclock {
+	if len(b) > len(a) {
+		a = append(a, make(vclock, len(b)-len(a))...)
+	}
+	for i, x := range b {
+		if x > a[i] {
+			a[i] = x
+		}
+	}
+	return a
+}
+
+type mapAccess struct {
+	wT, wC int         // last write: thread, its clock (wC 0: none)
+	wPos   string      // where
+	reads  map[int]int // thread -> clock of its last read since the last write
+	rPos   map[int]string
+	flag   bool
+}
+
+type raceState struct {
+	locks  map[interface{}]vclock
+	global vclock
+	maps   map[*Map]*mapAccess
+}
+
+func (m *machine) raceOn() bool { return m.eng.cfg.Race }
+
+func (m *machine) rs() *raceState {
+	if m.race == nil {
+		m.race = &raceState{locks: map[interface{}]vclock{}, maps: map[*Map]*mapAccess{}}
+	}
+	return m.race
+}
+
+func (t *gthread) tick() {
+	for len(t.clk) <= t.id {
+		t.clk = append(t.clk, 0)
+	}
+	t.clk[t.id]++
+}
+
+func (m *machine) thOf(fr *frame) *gthread {
+	if fr != nil && fr.th != nil {
+		return fr.th
+	}
+	return m.cur
+}
+
+func (m *machine) hbSpawn(parent, child *gthread) {
+	if !m.raceOn() || parent == nil {
+		return
+	}
+	if len(parent.clk) == 0 {
+		parent.tick()
+	}
+	child.clk = append(vclock{}, parent.clk...)
+	child.tick()
+	parent.tick()
+}
+
+func (m *machine) lockAcquire(fr *frame, l interface{}) {
+	if !m.raceOn() {
+		return
+	}
+	t := m.thOf(fr)
+	t.clk = joinVC(t.clk, m.rs().locks[l])
+}
+
+func (m *machine) lockRelease(fr *frame, l interface{}) {
+	if !m.raceOn() {
+		return
+	}
+	t := m.thOf(fr)
+	if len(t.clk) == 0 {
+		t.tick()
+	}
+	r := m.rs()
+	r.locks[l] = joinVC(append(vclock{}, r.locks[l]...), t.clk)
+	t.tick()
+}
+
+// syncGlobal: acquire+release on the global object (see the header).
+func (m *machine) syncGlobal(fr *frame) {
+	if !m.raceOn() {
+		return
+	}
+	t := m.thOf(fr)
+	if len(t.clk) == 0 {
+		t.tick()
+	}
+	r := m.rs()
+	t.clk = joinVC(t.clk, r.global)
+	r.global = joinVC(append(vclock{}, r.global...), t.clk)
+	t.tick()
+}
+
+// hbJoinAll: the caller has waited for every other goroutine (vrt.Quiesce).
+func (m *machine) hbJoinAll(fr *frame) {
+	if !m.raceOn() {
+		return
+	}
+	t := m.thOf(fr)
+	for _, o := range m.threads {
+		if o != t {
+			t.clk = joinVC(t.clk, o.clk)
+		}
+	}
+}
+
+func (m *machine) sharedAccess(fr *frame, obj interface{}, write bool) {
+	if !m.raceOn() {
+		return
+	}
+	mp, ok := obj.(*Map)
+	if !ok || mp == nil || len(m.threads) < 2 {
+		return
+	}
+	t := m.thOf(fr)
+	if len(t.clk) == 0 {
+		t.tick()
+	}
+	r := m.rs()
+	a := r.maps[mp]
+	if a == nil {
+		a = &mapAccess{reads: map[int]int{}, rPos: map[int]string{}}
+		r.maps[mp] = a
+	}
+	pos := ""
+	if fr != nil && fr.cur != nil {
+		pos = shortPos(m.eng.prog, fr.cur)
+	}
+	report := func(kind, other string) {
+		if a.flag {
+			return
+		}
+		a.flag = true
+		res, model := m.checkModel()
+		if res != Sat {
+			return
+		}
+		m.recordViolation("no-map-access-concurrent-with-a-map-write", fmt.Sprintf("%s at %s is not ordered with %s (Go runtime: fatal error: concurrent map %s)", kind, pos, other, map[bool]string{true: "writes", false: "read and map write"}[kind == "write" && other[0] == 'w']), "", model, pos)
+	}
+	if a.wC > 0 && a.wT != t.id && a.wC > t.clk.get(a.wT) {
+		k := "read"
+		if write {
+			k = "write"
+		}
+		report(k, "write at "+a.wPos)
+	}
+	if write {
+		for u, c := range a.reads {
+			if u != t.id && c > t.clk.get(u) {
+				report("write", "read at "+a.rPos[u])
+			}
+		}
+		a.wT, a.wC, a.wPos = t.id, t.clk[t.id], pos
+		a.reads, a.rPos = map[int]int{}, map[int]string{}
+	} else {
+		a.reads[t.id] = t.clk[t.id]
+		a.rPos[t.id] = pos
+	}
+}
